@@ -33,6 +33,18 @@ class Clock:
 CLOCK = Clock()
 
 
+class CaseTimeout(BaseException):
+    """raised by the per-case CPU watchdog (nrmc.common) - and again by the harness loops at their next step if relay code swallowed it"""
+
+
+WATCHDOG = {"fired": False}
+
+
+def watchdog_check():
+    if WATCHDOG["fired"]:
+        raise CaseTimeout()
+
+
 class TokenSource:
     """Deterministic, recorded replacement of the `secrets` module attribute."""
 
